@@ -486,6 +486,39 @@ theorem C17_dag_misuse_panic_preserves_state (s : CSh) (t : CTh) :
     exact step_enters_unreg hm hne
 
 open Comp in
+/-- **The whole misused call, executed alone** (the sequential reading of "unlocking something that is not held panics
+instead of corrupting state"; any state `s` with `d.Mutex` free, any other goroutines standing still):
+1. `Unlock(x)` of an entity without a mutex: after its three steps the goroutine has panicked and the *entire* shared
+   state is `s` again.
+2. `RUnlock(xs…)` with an id that has no mutex or occurs more often than it is registered: the same.
+3. `Unlock(x)` of a registered entity whose mutex (internal mutex free) is not write-locked or has readers: after its
+   five steps the goroutine has panicked inside `StarvingMutex.Unlock` and the shared state is `s` except that the
+   internal mutex of that one object is locked — registry, consumer counts, `(writer, readers, pending)` and the
+   condition variables of every object are untouched. -/
+theorem C17_dag_misuse_call_preserves_state (s : CSh) (t : CTh) (r : List Dag.DOp) (others : List CTh)
+    (hc : t.ctl = .idle) (hd : s.dm = false) :
+    (∀ x, t.script = .unlock x :: r → s.ent x = none →
+      Conc.runSched Comp.sys (s, t :: others) [(0, 0), (0, 0), (0, 0)] = (s, { t with ctl := .dead, script := r } :: others)) ∧
+    (∀ xs, t.script = .runlock xs :: r → (∃ x ∈ xs, s.ent x = none ∨ s.cnt x < xs.count x) →
+      Conc.runSched Comp.sys (s, t :: others) [(0, 0), (0, 0), (0, 0)] = (s, { t with ctl := .dead, script := r } :: others)) ∧
+    (∀ x o, t.script = .unlock x :: r → s.ent x = some o → (s.heap o).m = false →
+      (0 < (s.heap o).readers ∨ (s.heap o).writer = false) →
+      ∃ t', Conc.runSched Comp.sys (s, t :: others) (List.replicate 5 (0, 0)) =
+          ({ s with heap := Dag.upd s.heap o { s.heap o with m := true } }, t' :: others) ∧
+        t'.ipc = .dead ∧ t'.script = r) :=
+  ⟨fun x hs he => call_unlock_unregistered s t x r others hc hs hd he,
+   fun xs hs he => call_runlock_lookup s t xs r others hc hs hd he,
+   fun x o hs he hm hw => call_unlock_wrong_mode s t x o r others hc hs hd he hm hw⟩
+
+/-- Non-vacuity of the hypotheses of `C17_dag_misuse_call_preserves_state` (3): after `RLock(1)` entity 1 is registered,
+its mutex is read-locked with the internal mutex free, and the goroutine is between calls. -/
+example :
+    let c := Conc.runSched Comp.sys (Comp.initCfg [[.rlock [1], .unlock 1]]) (List.replicate 6 (0, 0))
+    c.2.map (fun t => (t.ctl, t.script)) = [(.idle, [.unlock 1])] ∧ c.1.dm = false ∧ c.1.ent 1 = some 0 ∧
+      (c.1.heap 0).m = false ∧ (c.1.heap 0).readers = 1 := by
+  decide
+
+open Comp in
 /-- **No misuse can corrupt a mutex object** — the composed system under *arbitrary* scripts (any calls in any order on
 any entities, wrong-mode and unregistered unlocks included, any number of them panicking): in every reachable
 configuration every StarvingMutex object of the DAGMutex satisfies the script-independent monitor invariant `GInv` for
